@@ -80,7 +80,7 @@ fn q_text(q: u8) -> &'static str {
 }
 
 /// Upstream answer kinds.
-const KINDS: [&str; 22] = [
+const KINDS: [&str; 26] = [
     "pos-ttl10-aa",          // 0
     "pos-mixed-answer-5/20", // 1
     "pos-20-authority-5",    // 2
@@ -103,6 +103,12 @@ const KINDS: [&str; 22] = [
     "signed-nodata7",        // 19 SOA + (DO: RRSIG, NSEC, RRSIG) in authority
     "noerror-empty",         // 20
     "refused-soa5000",       // 21 error rcode carrying a long-TTL record
+    // authority-section ORDER variants: a SOA anywhere in the authority
+    // section makes the response negative (RFC 2308 2.1/2.2), NS or not
+    "nodata-ns5000-then-soa5000",   // 22
+    "nodata-soa5000-then-ns5000",   // 23
+    "nxdomain-ns5000-then-soa5000", // 24
+    "nxdomain-soa5000-then-ns5000", // 25
 ];
 const K_PROBE: u8 = 0; // what upstream answers when a probe is forwarded
 const K_TRANSPORT: u8 = 15;
@@ -345,6 +351,20 @@ fn render(kind: u8, qname: &[u8], qtype: u16, f: u8, m: u8) -> Option<(u16, [Vec
         21 => {
             h |= 5;
             s[1].push(soa(5000));
+        }
+        22 | 24 => {
+            if kind == 24 {
+                h |= 3;
+            }
+            s[1].push(ns(5000));
+            s[1].push(soa(5000));
+        }
+        23 | 25 => {
+            if kind == 25 {
+                h |= 3;
+            }
+            s[1].push(soa(5000));
+            s[1].push(ns(5000));
         }
         _ => unreachable!(),
     }
@@ -1160,7 +1180,7 @@ fn main() {
         .collect();
     // clock advances (ms) in front of a probe; every configured bound and
     // every TTL of the answer menu has a value just below, at, and above it
-    let mut adv1: Vec<u64> = [0u64, 1, 4, 5, 6, 7, 8, 10, 11, 20, 21, 30, 31, 60, 61, 70, 71, 80, 81, 90, 91, 100, 101, 3600, 3601, 604800, 604801]
+    let mut adv1: Vec<u64> = [0u64, 1, 4, 5, 6, 7, 8, 10, 11, 30, 31, 60, 61, 70, 71, 80, 81, 90, 91, 100, 101, 3600, 3601, 604800, 604801]
         .iter()
         .map(|s| s * 1000)
         .collect();
@@ -1168,10 +1188,10 @@ fn main() {
     adv1.extend([500u64, 10500]);
     if !quick {
         // more sub-second positions around the small bounds and three far points
-        adv1.extend([999u64, 1001, 4999, 5001, 6999, 7001, 9500, 10001, 19999, 20001, 30001, 60001, 1_000_000_000, 1_000_001_000, 2_000_001_000]);
+        adv1.extend([20_000u64, 21_000, 999, 1001, 4999, 5001, 6999, 7001, 9500, 10001, 19999, 20001, 30001, 60001, 1_000_000_000, 1_000_001_000, 2_000_001_000]);
     }
     adv1.sort();
-    let adv2: Vec<u64> = if quick { vec![0, 5000, 10000, 11000] } else { vec![0, 5000, 5500, 10000, 11000] };
+    let adv2: Vec<u64> = if quick { vec![0, 10000] } else { vec![0, 5000, 5500, 10000, 11000] };
     // first probe of fill·probe·probe
     let adv2a: Vec<u64> = if quick { vec![0, 5000, 11000] } else { adv2.clone() };
     // b.ex/A is the mirror image of a.ex/A: the quick tier leaves it out of the three-step shape
@@ -1292,6 +1312,7 @@ fn main() {
         (1, vec![Step { adv_ms: 0, q: 0, f: RD | DO, ans: 18 }, Step { adv_ms: 4000, q: 0, f: 0, ans: 0 }]),
         (3, vec![Step { adv_ms: 0, q: 2, f: RD | AD, ans: 9 }, Step { adv_ms: 5000, q: 2, f: 0, ans: 0 }, Step { adv_ms: 11000, q: 2, f: RD, ans: 0 }]),
         (0, vec![Step { adv_ms: 0, q: 0, f: RD | DO, ans: 19 }, Step { adv_ms: 5000, q: 0, f: CD, ans: 0 }, Step { adv_ms: 0, q: 0, f: 0, ans: 0 }]),
+        (0, vec![Step { adv_ms: 0, q: 0, f: RD, ans: 22 }, Step { adv_ms: 3_601_000, q: 0, f: RD, ans: 0 }]),
     ];
     if !quick {
         sample_hist.push((0, vec![Step { adv_ms: 0, q: 0, f: RD | DO, ans: 18 }, Step { adv_ms: 5000, q: 0, f: RD, ans: 1 }, Step { adv_ms: 0, q: 0, f: 0, ans: 0 }, Step { adv_ms: 10000, q: 0, f: AD, ans: 0 }]));
@@ -1313,7 +1334,7 @@ fn main() {
                 })
                 .collect(),
         };
-        stats.sample(8, || json!({"cfg": cfg.name, "history": h.iter().map(step_text).collect::<Vec<_>>(), "observed": outcome}));
+        stats.sample(10, || json!({"cfg": cfg.name, "history": h.iter().map(step_text).collect::<Vec<_>>(), "observed": outcome}));
     }
 
     let g = global.into_inner().unwrap();
